@@ -438,6 +438,16 @@ static Json payload_damage(G &g, u64 flen) {
 }
 
 static void gen_c09(G &g) {
+    if (g.world.chance(1, 24)) {
+        // a header whose metadata checksum is exactly 0 - a legal CRC value, not "never sealed": written by encode itself
+        Cfg c; c.be = BE_RS; c.k = 1; c.m = (int) g.world.range(1, 3); c.hd = c.m; c.ct = 2;
+        g.ops.push(create_op(0, c));
+        Json p = put_op(g, 0, 0, c); p.set("len", (i64) (2 * g.data.range(4, 600))).set("pat", 7); if (g.world.chance(1, 4)) p.set("env", "1"); g.ops.push(p);
+        for (int i = 0; i < 3; i++) { Json j = mk("SCRUB"); j.set("obj", 0).set("slot", 0).set("dev", i == 2 ? 1 : 0).set("al", pick_al(g.faults)).set("fx", i == 1 ? header_damage(g, 0, true) : Json::arr()); g.ops.push(j); }
+        Json gt = mk("GET"); gt.set("obj", 0).set("slot", 0).set("force", (int) g.faults.below(2)).set("dl", delivery(g, full(c.n()), c.n(), false)); g.ops.push(gt);
+        Json rp = mk("REPAIR"); rp.set("obj", 0).set("slot", 0).set("dest", 1).set("oal", 16).set("dl", delivery(g, 1, c.n(), false)); g.ops.push(rp);
+        return;
+    }
     Cfg c = any_coded_shape(g.world, false, true); c.ct = g.world.chance(1, 2) ? 2 : 1;
     if (c.k + c.m > 12 && g.world.chance(2, 3)) { c = rs_shape(g.world, BE_RS); c.k = (int) g.world.range(1, 6); c.m = (int) g.world.range(1, 3); c.hd = c.m; c.ct = 2; }
     g.ops.push(create_op(0, c));
@@ -561,9 +571,14 @@ static void gen_c12(G &g) {
         else { c.be = BE_NULL; c.k = (int) g.world.range(1, 8); c.m = (int) g.world.range(1, 4); c.hd = c.m; }
         if (i > 0 && g.world.chance(1, 3)) { c = cs[0]; if (g.world.chance(1, 2)) { c.k = std::max(1, c.k - 1); if (c.be == BE_XOR) c = cs[0]; } }
         c.ct = g.world.chance(2, 3) ? 2 : 1;
+        bool hz = g.world.chance(1, 16);   // this instance's stripe has a header whose metadata checksum is exactly 0
+        if (hz) { c = Cfg(); c.be = BE_RS; c.k = 1; c.m = (int) g.world.range(1, 3); c.hd = c.m; c.ct = 2; }
         cs.push_back(c);
         g.ops.push(create_op(i, c));
-        Json p = put_op(g, i, i, c); p.set("len", (i64) g.data.range(0, 1500)); if (g.world.chance(1, 8)) p.set("env", "1"); g.ops.push(p);
+        Json p = put_op(g, i, i, c); p.set("len", (i64) g.data.range(0, 1500)); if (g.world.chance(1, 8)) p.set("env", "1");
+        if (hz) p.set("len", (i64) (2 * g.data.range(4, 600))).set("pat", 7);
+        g.ops.push(p);
+        if (hz) { Json j = mk("SCRUB"); j.set("obj", i).set("slot", i).set("dev", 0).set("al", 16).set("fx", Json::arr()); g.ops.push(j); }
     }
     { Json e = mk("ENV"); g.ops.push(e); }
     int rounds = (int) g.plan.range(8, 24);
